@@ -108,6 +108,65 @@ theorem multFloat64_one (l : Nat) (hl : l < 2 ^ 53) : multFloat64 l F64.one = .o
   rw [hb, F64.toNatTrunc_ofNat l hl]
   rfl
 
+theorem div_le_of_le_mul' (x c U : Nat) (h : x ≤ c * U) : x / U ≤ c := by
+  apply Nat.div_le_of_le_mul
+  rw [Nat.mul_comm]; exact h
+
+/-- `MultFloat64(l, r)` is DEFINED (no error, no out-of-range conversion) for every `l < 2^63` and finite `0 ≤ r ≤ 1`
+(its value may exceed `l` by rounding when `l ≥ 2^53`: that is what the cap in `unlock` is for). -/
+theorem multFloat64_defined (l m E : Nat) (hl : l < 2 ^ 63) (hr : m * 2 ^ E ≤ 2 ^ 1074) :
+    ∃ a, multFloat64 l (.fin false m E) = .ok a := by
+  -- float64(l) is finite, canonical, and at most 2^63
+  have hcan63 : F64.Canon (.fin false (2 ^ 52) 1085) := by
+    show (2 ^ 52 < 2 ^ 52 ∧ 1085 = 0) ∨ (2 ^ 52 ≤ 2 ^ 52 ∧ 2 ^ 52 < 2 ^ 53 ∧ 1085 ≤ 2045); omega
+  have h63 : (2 : Nat) ^ 63 * 2 ^ 1074 = 2 ^ 52 * 2 ^ 1085 := by rw [← Nat.pow_add, ← Nat.pow_add]
+  have hX := F64.roundDiv_mono (N1 := l * 2 ^ 1074) (D1 := 1) (N2 := 2 ^ 63 * 2 ^ 1074) (D2 := 1) Nat.one_pos Nat.one_pos
+    (by rw [Nat.mul_one, Nat.mul_one]; exact Nat.mul_le_mul_right _ (Nat.le_of_lt hl))
+  have e63 : F64.roundDiv false (2 ^ 63 * 2 ^ 1074) 1 = .fin false (2 ^ 52) 1085 :=
+    F64.roundDiv_repr false Nat.one_pos hcan63 (Eq.trans h63 (Nat.mul_one _).symm)
+  rw [e63] at hX
+  have hXc := F64.roundDiv_canon false (l * 2 ^ 1074) 1 Nat.one_pos
+  rw [F64.roundDiv_eq] at hX hXc
+  by_cases hinf : 2045 < F64.finE (l * 2 ^ 1074) 1
+  · rw [if_pos hinf] at hX; exact absurd hX (by simp [F64.leNN])
+  · rw [if_neg hinf] at hX hXc
+    have hof : F64.ofNat l = .fin false (F64.finM (l * 2 ^ 1074) 1) (F64.finE (l * 2 ^ 1074) 1) := by
+      unfold F64.ofNat; rw [F64.roundDiv_eq, if_neg hinf]
+    generalize F64.finM (l * 2 ^ 1074) 1 = ml at hX hXc hof
+    generalize F64.finE (l * 2 ^ 1074) 1 = El at hX hXc hof
+    have hmag : ml * 2 ^ El ≤ 2 ^ 52 * 2 ^ 1085 := hX
+    -- the product is at most float64(l)
+    have hP := F64.roundDiv_mono (N1 := ml * m * 2 ^ (El + E)) (D1 := 2 ^ 1074) (N2 := ml * 2 ^ El) (D2 := 1)
+      (F64.p2 _) Nat.one_pos (by
+        calc ml * m * 2 ^ (El + E) * 1 = (ml * 2 ^ El) * (m * 2 ^ E) := by rw [Nat.pow_add]; ring
+          _ ≤ (ml * 2 ^ El) * 2 ^ 1074 := Nat.mul_le_mul_left _ hr)
+    have eX : F64.roundDiv false (ml * 2 ^ El) 1 = .fin false ml El := F64.roundDiv_repr false Nat.one_pos hXc (Nat.mul_one _).symm
+    rw [eX, F64.roundDiv_eq] at hP
+    have hb : F64.lt (F64.mul (F64.ofNat l) (.fin false m E)) F64.zero = false := by
+      rw [hof]; exact F64.lt_roundDiv_zero _ _
+    unfold multFloat64
+    rw [lt_fin_false_zero]
+    simp only [hb, Bool.false_eq_true, if_false]
+    unfold float64ToCoin
+    rw [hb, hof]
+    show ∃ a, (match F64.toNatTrunc (F64.roundDiv (false != false) (ml * m * 2 ^ (El + E)) (2 ^ 1074)) with
+      | some n => Except.ok n | none => Except.error Err.undef) = Except.ok a
+    simp only [bne_self_eq_false]
+    rw [F64.roundDiv_eq]
+    by_cases hinf2 : 2045 < F64.finE (ml * m * 2 ^ (El + E)) (2 ^ 1074)
+    · rw [if_pos hinf2] at hP; exact absurd hP (by simp [F64.leNN])
+    · rw [if_neg hinf2] at hP ⊢
+      have hle : F64.finM (ml * m * 2 ^ (El + E)) (2 ^ 1074) * 2 ^ F64.finE (ml * m * 2 ^ (El + E)) (2 ^ 1074) ≤ ml * 2 ^ El := hP
+      generalize F64.finM (ml * m * 2 ^ (El + E)) (2 ^ 1074) = mp at hle ⊢
+      generalize F64.finE (ml * m * 2 ^ (El + E)) (2 ^ 1074) = Ep at hle ⊢
+      have hle2 : mp * 2 ^ Ep ≤ 2 ^ 63 * 2 ^ 1074 := Nat.le_trans hle (Nat.le_trans hmag (Nat.le_of_eq h63.symm))
+      have hq : mp * 2 ^ Ep / 2 ^ 1074 ≤ 2 ^ 63 := div_le_of_le_mul' _ _ _ hle2
+      have hq64 : mp * 2 ^ Ep / 2 ^ 1074 < 2 ^ 64 := Nat.lt_of_le_of_lt hq (by decide)
+      unfold F64.toNatTrunc
+      simp only [Bool.false_eq_true, if_false]
+      rw [if_pos hq64]
+      exact ⟨_, rfl⟩
+
 end ZChain.Coin
 
 namespace ZChain.Vesting
@@ -130,7 +189,7 @@ theorem wrapSub_of_le' {a b : Nat} (ha : a < U64) (hb : b ≤ a) : wrapSub a b =
 /-- a destination in good standing at time `now` (clipped) of a pool ending at `end_`. -/
 structure Good (d : Dest) (now end_ : Int) : Prop where
   vested_le : d.vested ≤ d.amount
-  small     : d.amount < 2 ^ 53
+  small     : d.amount < 2 ^ 63      -- amounts are bounded by the token supply (4·10^18 < 2^62)
   move_le   : d.move ≤ now
   now_le    : now ≤ end_
   span      : end_ - d.move < 2 ^ 53
@@ -159,22 +218,26 @@ theorem ratio_le_one {d : Dest} {now end_ : Int} (g : Good d now end_) :
     · have : ((end_ - d.move).toNat : Int) < 2 ^ 53 := by rw [Int.toNat_of_nonneg (by omega)]; exact h3
       exact_mod_cast this
 
-/-- **one unlock step** of a destination in good standing: it succeeds, pays at most what is left, keeps
-`Vested ≤ Amount`, never lowers `Vested`, and pays exactly the rest at the end. -/
+/-- **one unlock step** of a destination in good standing (any amount): it succeeds, pays at most what is left (the cap),
+keeps `Vested ≤ Amount`, never lowers `Vested`; and at the end pays exactly the rest when that is below `2^53`
+(above, `float64(left)` may round DOWN and leave a remainder of less than one ulp for the next call). -/
 theorem unlockDest_spec {d : Dest} {now end_ : Int} (g : Good d now end_) :
     ∃ d' a, unlockDest d now end_ = .ok (d', a) ∧ a ≤ leftN d ∧ d'.vested = d.vested + a ∧
-      d'.amount = d.amount ∧ d'.id = d.id ∧ d'.move ≤ now ∧ d.move ≤ d'.move ∧ (now = end_ → a = leftN d) := by
+      d'.amount = d.amount ∧ d'.id = d.id ∧ d'.move ≤ now ∧ d.move ≤ d'.move ∧
+      (now = end_ → leftN d < 2 ^ 53 → a = leftN d) := by
   obtain ⟨m, E, hr, hle⟩ := ratio_le_one g
-  have hl : leftN d < 2 ^ 53 := by unfold leftN; have := g.small; omega
-  obtain ⟨a, ha, hale⟩ := multFloat64_le (leftN d) m E hl hle
-  have hend : now = end_ → a = leftN d := by
-    intro he
+  have hl : leftN d < 2 ^ 63 := by unfold leftN; have := g.small; omega
+  obtain ⟨a0, ha0⟩ := multFloat64_defined (leftN d) m E hl hle
+  have hend : now = end_ → leftN d < 2 ^ 53 → (if leftN d < a0 then leftN d else a0) = leftN d := by
+    intro he hs
     have : ratioOf d now end_ = F64.one := by unfold ratioOf; rw [if_pos he]
     rw [this] at hr
-    rw [← hr, multFloat64_one _ hl] at ha
-    injection ha with ha; exact ha.symm
+    rw [← hr, multFloat64_one _ hs] at ha0
+    injection ha0 with ha0; rw [← ha0]; simp
   have hv := g.vested_le
   have hsm := g.small
+  have hale : (if leftN d < a0 then leftN d else a0) ≤ leftN d := by split <;> omega
+  generalize hA : (if leftN d < a0 then leftN d else a0) = a at hend hale
   have hadd : addCoin d.vested a = .ok (d.vested + a) := by
     unfold addCoin
     have : d.vested + a < U64 := by
@@ -184,20 +247,20 @@ theorem unlockDest_spec {d : Dest} {now end_ : Int} (g : Good d now end_) :
     rw [if_pos this]
   by_cases hpos : 0 < a
   · refine ⟨{ d with last := now, move := now, vested := d.vested + a }, a, ?_, hale, rfl, rfl, rfl, Int.le_refl _, g.move_le, hend⟩
-    simp only [unlockDest, left_ok hv, bind, Except.bind, hr, ha, liftC, moveDest, if_pos hpos, hadd]
+    simp only [unlockDest, left_ok hv, bind, Except.bind, hr, ha0, liftC, hA, moveDest, if_pos hpos, hadd]
   · refine ⟨{ d with last := now }, a, ?_, hale, by simp; omega, rfl, rfl, g.move_le, Int.le_refl _, hend⟩
-    simp only [unlockDest, left_ok hv, bind, Except.bind, hr, ha, liftC, moveDest, if_neg hpos]
+    simp only [unlockDest, left_ok hv, bind, Except.bind, hr, ha0, liftC, hA, moveDest, if_neg hpos]
 
 def sumT (ts : Transfers) : Nat := (ts.map (·.2)).sum
 
 /-- **the trigger loop** on destinations in good standing backed by the balance: it succeeds; afterwards every
 destination still has `Vested ≤ Amount`, `Vested` did not decrease, the balance still backs the remainders, and
-balance + transfers is conserved. At the end (`now = end`) everything is vested. -/
+balance + transfers is conserved. At the end (`now = end`) every remainder below `2^53` is vested completely. -/
 theorem triggerLoop_spec (now end_ : Int) : ∀ (ds : List Dest) (bal : Nat),
     (∀ d ∈ ds, Good d now end_) → needN ds ≤ bal →
     ∃ ds' bal' ts, triggerLoop now end_ ds bal = .ok (ds', bal', ts) ∧
       List.Forall₂ (fun d d' => d'.id = d.id ∧ d'.amount = d.amount ∧ d.vested ≤ d'.vested ∧ d'.vested ≤ d'.amount ∧
-        d'.move ≤ now ∧ d.move ≤ d'.move ∧ (now = end_ → d'.vested = d'.amount)) ds ds' ∧
+        d'.move ≤ now ∧ d.move ≤ d'.move ∧ (now = end_ → leftN d < 2 ^ 53 → d'.vested = d'.amount)) ds ds' ∧
       needN ds' ≤ bal' ∧ bal' + sumT ts = bal ∧ needN ds' + sumT ts = needN ds ∧
       (∀ t ∈ ts, ∃ d ∈ ds, t.1 = d.id) := by
   intro ds
@@ -213,9 +276,9 @@ theorem triggerLoop_spec (now end_ : Int) : ∀ (ds : List Dest) (bal : Nat),
     have hl' : leftN d' = leftN d - a := by unfold leftN; rw [hv, ham]; omega
     have hgv := gd.vested_le
     have hfor : d'.id = d.id ∧ d'.amount = d.amount ∧ d.vested ≤ d'.vested ∧ d'.vested ≤ d'.amount ∧ d'.move ≤ now ∧ d.move ≤ d'.move ∧
-        (now = end_ → d'.vested = d'.amount) := by
+        (now = end_ → leftN d < 2 ^ 53 → d'.vested = d'.amount) := by
       refine ⟨hid, ham, by omega, by unfold leftN at hale; omega, hmv, hmv2, ?_⟩
-      intro he; have := hend he; unfold leftN at this; omega
+      intro he hs; have := hend he hs; unfold leftN at this; omega
     have hc' : ∀ ds', needN (d' :: ds') = leftN d' + needN ds' := by intro ds'; simp [needN]
     rw [hneed] at hn
     by_cases h0 : a = 0
